@@ -2962,6 +2962,7 @@ def _apply_sifting(
     """Apply Rudell's sifting algorithm."""
     bdd.collect_garbage()
     n = len(bdd)
+    m = n
     # using `set` injects some randomness
     levels = bdd._levels()
     names = set(bdd.vars)
